@@ -41,6 +41,8 @@
 (*           indices, streams: Seq(Str),                                    *)
 (*           supN: {[p: Str, v: Int]}, supS: {[p: Str, v: Str]}  supplied   *)
 (*           track parameters (--track-params),                             *)
+(*           refs: SUBSET Reserved  names of Rally's own template variables *)
+(*           that the file references (in its description text),            *)
 (*           parts: SUBSET {"ops","chals","corpora"} fragments that live in *)
 (*           included files (rally.collect), tight: BOOLEAN the include is  *)
 (*           written {{rally.collect(parts="..")}} without blanks,          *)
@@ -124,13 +126,15 @@ ElParams(el) == {el[k].p : k \in ElNumFields} \cup UNION {TaskParams(el.tasks[i]
 ChalParams(ch) == UNION {ElParams(ch.sched[e]) : e \in 1..Len(ch.sched)}
 Used(F) == (UNION {ChalParams(F.chals[c]) : c \in 1..Len(F.chals)}
             \cup {F.ops[i].bulk.p : i \in 1..Len(F.ops)}
-            \cup UNION {{F.corpora[k].docs[d].count.p : d \in 1..Len(F.corpora[k].docs)} : k \in 1..Len(F.corpora)}) \ {""}
+            \cup UNION {{F.corpora[k].docs[d].count.p : d \in 1..Len(F.corpora[k].docs)} : k \in 1..Len(F.corpora)}
+            \cup F.refs) \ {""}
 \* ... and those outside of included parts
 UsedOutsideParts(F) ==
     ((IF "chals" \in F.parts THEN {} ELSE UNION {ChalParams(F.chals[c]) : c \in 1..Len(F.chals)})
      \cup (IF "ops" \in F.parts THEN {} ELSE {F.ops[i].bulk.p : i \in 1..Len(F.ops)})
      \cup (IF "corpora" \in F.parts THEN {}
-           ELSE UNION {{F.corpora[k].docs[d].count.p : d \in 1..Len(F.corpora[k].docs)} : k \in 1..Len(F.corpora)})) \ {""}
+           ELSE UNION {{F.corpora[k].docs[d].count.p : d \in 1..Len(F.corpora[k].docs)} : k \in 1..Len(F.corpora)})
+     \cup F.refs) \ {""}
 Supplied(F) == {s.p : s \in F.supN} \cup {s.p : s \in F.supS}
 
 -----------------------------------------------------------------------------
@@ -349,7 +353,7 @@ ParEl(t) == [PlainEl(t) EXCEPT !.par = TRUE]
 EmptyFile(form, cname, ref) ==
     [form |-> form, chals |-> <<[name |-> cname, dflt |-> "abs", sched |-> <<PlainEl(BareTask(ref))>>]>>,
      ops |-> <<>>, corpora |-> <<>>, indices |-> <<>>, streams |-> <<>>, supN |-> {}, supS |-> {}, parts |-> {},
-     tight |-> FALSE, defect |-> NoDefect]
+     refs |-> {}, tight |-> FALSE, defect |-> NoDefect]
 
 Vals(field) == {L(n) : n \in Alpha[field]}
                \cup (IF field \in ParamSites THEN {P(q, n) : q \in NumParams, n \in Alpha[field] \ {0}} ELSE {})
@@ -374,6 +378,7 @@ SumDocs(ks, n) == IF n = 0 THEN 0 ELSE SumDocs(ks, n - 1) + Len(ks[n].docs)
 \* number of builder steps that lead to F = number of things written beyond the minimal file
 Size(F) == SetCount(F) + (SumChTasks(F.chals, Len(F.chals)) - 1) + Len(F.ops) + SumDocs(F.corpora, Len(F.corpora))
            + Len(F.indices) + Len(F.streams) + Cardinality(F.supN) + Cardinality(F.supS) + Cardinality(F.parts)
+           + Cardinality(F.refs)
            + (IF F.defect = NoDefect THEN 0 ELSE 1)
 
 ChalIdx == 1..Len(f.chals)
@@ -429,6 +434,7 @@ CandSupplyParam ==
     ELSE {[f EXCEPT !.supN = @ \cup {[p |-> q, v |-> x]}] : q \in NumParams \ Supplied(f), x \in SupVals}
          \cup {[f EXCEPT !.supN = @ \cup {[p |-> q, v |-> 1]}] : q \in ReservedCand \ Supplied(f)}
          \cup {[f EXCEPT !.supS = @ \cup {[p |-> q, v |-> x]}] : q \in StrParams \ Supplied(f), x \in TNames}
+CandUseReserved == {[f EXCEPT !.refs = @ \cup {q}] : q \in ReservedCand \ f.refs}
 CandSplitIntoPart ==
     {[f EXCEPT !.parts = @ \cup {k}, !.tight = tg] : tg \in (IF f.parts = {} THEN BOOLEAN ELSE {f.tight}),
         k \in {k \in PartKinds \ f.parts :
@@ -481,6 +487,7 @@ AddIndex == \E F2 \in CandAddIndex : Take(F2)
 AddStream == \E F2 \in CandAddStream : Take(F2)
 SupplyParam == \E F2 \in CandSupplyParam : Take(F2)
 SplitIntoPart == \E F2 \in CandSplitIntoPart : Take(F2)
+UseReserved == \E F2 \in CandUseReserved : Take(F2)
 BreakSchema == \E F2 \in CandDefect : Take(F2)
 
 Init == /\ f \in Seeds
@@ -488,6 +495,6 @@ Init == /\ f \in Seeds
         /\ lim = Size(f) + MaxSize
 Next == \/ AddOperation \/ AddChallenge \/ SetDefault \/ AddTask \/ AddParallel \/ AddParallelTask
         \/ SetTaskField \/ SetParallelField \/ AddCorpus \/ AddDocs \/ AddIndex \/ AddStream
-        \/ SupplyParam \/ SplitIntoPart \/ BreakSchema
+        \/ SupplyParam \/ UseReserved \/ SplitIntoPart \/ BreakSchema
 Spec == Init /\ [][Next]_vars
 =============================================================================
